@@ -48,6 +48,7 @@ func init() {
 			"Create-namespace contexts: install / install --replace with --create-namespace, release namespace object absent | present, conflicts inside the namespace (a, w) and outside it (cluster-scoped cr); " +
 			"a refused install must not have sent POST /namespaces either. Chart-own-metadata charts: every slot document hard-codes app.kubernetes.io/managed-by=kustomize (variant 2: also foreign meta.helm.sh/release-* annotations); " +
 			"all contexts x the 4-slot chart x 7^2 placements of (a,w); oracle (b) demands this release's three values on the live objects. " +
+			"Other-namespace slot: ConfigMap b0 with metadata.namespace: other (same kind and name as the base resource b0 of the release namespace), charts {b0@other, a+b0@other} x 7^2 placements of (a, b0@other) x all contexts. " +
 			"Carry-over family: release owns {b0 + slots}; every subset of its live objects is deleted out-of-band; then {upgrade changing the content | upgrade with the identical chart | rollback} x --force on/off x take-ownership on/off (upgrades); " +
 			"oracle (b): every manifest object carries the ownership metadata afterwards (re-created and PUT-replaced objects included). " +
 			"Mid-operation injection family: {install of one slot, install of two slots adopting an owned one, upgrade adding a slot, rollback re-creating a slot} (take-ownership off) x slot in {a,s,w,cr} x " +
@@ -74,6 +75,7 @@ func init() {
 			"create-namespace:created", "create-namespace:already-exists-tolerated",
 			"chart-own-metadata-1-overridden:install", "chart-own-metadata-1-overridden:replace", "chart-own-metadata-1-overridden:upgrade", "chart-own-metadata-1-overridden:rollback",
 			"chart-own-metadata-2-overridden:install", "chart-own-metadata-2-overridden:upgrade",
+			"refused:upgrade-same-name-other-namespace", "inject-create-met-unowned-not-deployed",
 			"refused:retry-after-failed-upgrade", "carry:recreated-stamped", "carry:force-replaced-stamped", "carry:rollback-recreated-stamped",
 			"inject:install", "inject:install-adopting", "inject:upgrade", "inject:rollback", "inject-refused-pre-check", "inject-create-409", "inject-abort-not-in-original", "inject-untouched-checked",
 		},
@@ -82,13 +84,25 @@ func init() {
 
 // ---------- the slots and what may sit in them ----------
 
-type slot struct{ Kind, Name string }
+// NS != "": the document carries an explicit metadata.namespace other than the release namespace.
+type slot struct{ Kind, Name, NS string }
+
+func (s slot) id() string {
+	if s.NS != "" {
+		return s.Name + "@" + s.NS
+	}
+	return s.Name
+}
 
 // a, s, w are namespaced; cr is cluster-scoped (its release-namespace annotation is the only
 // place where the owning release's namespace is recorded).
-var slots = []slot{{"ConfigMap", "a"}, {"Service", "s"}, {"Widget", "w"}, {"ClusterRole", "cr"}}
+// b0@other: same kind AND name as the base resource b0 of the release namespace, but with metadata.namespace: other.
+var slots = []slot{{"ConfigMap", "a", ""}, {"Service", "s", ""}, {"Widget", "w", ""}, {"ClusterRole", "cr", ""}, {"ConfigMap", "b0", "other"}}
 
-type placement [4]int
+// nInjectSlots: the mid-operation injection family uses the first four slots.
+const nInjectSlots = 4
+
+type placement [5]int
 
 var placeNames = []string{"absent", "foreign", "other-release", "other-ns", "label-only", "annos-only", "owned", "label-wrong-value", "no-ns-anno"}
 
@@ -108,7 +122,7 @@ func apiVersionOf(kind string) string {
 }
 
 func slotPath(s slot) string {
-	return docPath(hx.Doc{APIVersion: apiVersionOf(s.Kind), Kind: s.Kind, Name: s.Name})
+	return docPath(hx.Doc{APIVersion: apiVersionOf(s.Kind), Kind: s.Kind, Name: s.Name, Namespace: s.NS})
 }
 
 // docPath is hx.Doc.Path with the cluster-scoped kinds of this check (Doc.Path only knows Namespace and CRD as such).
@@ -132,6 +146,9 @@ func preObject(s slot, kind int) map[string]any {
 	md := map[string]any{"name": s.Name, "namespace": hx.Namespace}
 	if s.Kind == "ClusterRole" {
 		delete(md, "namespace")
+	}
+	if s.NS != "" {
+		md["namespace"] = s.NS
 	}
 	var lb, an map[string]any
 	switch kind {
@@ -238,10 +255,16 @@ func chartC(mask, variant, base int, hook bool, version string) *hx.ChartSpec {
 
 // ownMetaYAML renders a slot document that hard-codes ownership metadata of its own (manifests exported from a
 // cluster managed by another tool): own=1 a foreign managed-by label, own=2 also foreign release annotations.
-func ownMetaYAML(r hx.ResSpec, own int) string {
+func ownMetaYAML(r hx.ResSpec, own int, ns string) string {
 	y := hx.ResourceYAML(r)
 	marker := "metadata:\n  name: " + r.Name + "\n"
-	ins := "  labels:\n    " + lblManagedBy + ": kustomize\n    team: x\n"
+	ins := ""
+	if ns != "" {
+		ins += "  namespace: " + ns + "\n"
+	}
+	if own >= 1 {
+		ins += "  labels:\n    " + lblManagedBy + ": kustomize\n    team: x\n"
+	}
 	if own >= 2 {
 		ins += "  annotations:\n    " + annName + ": other\n    " + annNS + ": other-ns\n"
 	}
@@ -264,8 +287,14 @@ func chartOwn(mask, variant, base int, hook bool, version string, own int) *hx.C
 	for i, s := range slots {
 		if mask&(1<<i) != 0 {
 			r := hx.ResSpec{Kind: s.Kind, Name: s.Name, Variant: variant}
-			if own > 0 {
-				cs.Extra[fmt.Sprintf("templates/own-%s-%s.yaml", strings.ToLower(s.Kind), s.Name)] = ownMetaYAML(r, own)
+			if own > 0 || s.NS != "" {
+				if cs.Extra == nil {
+					cs.Extra = map[string]string{}
+				}
+				if s.NS != "" {
+					cs.Version += "-ns" + s.NS
+				}
+				cs.Extra[fmt.Sprintf("templates/raw-%s-%s%s.yaml", strings.ToLower(s.Kind), s.Name, s.NS)] = ownMetaYAML(r, own, s.NS)
 				continue
 			}
 			cs.Resources = append(cs.Resources, r)
@@ -293,7 +322,7 @@ func maskName(mask int) string {
 	var n []string
 	for i, s := range slots {
 		if mask&(1<<i) != 0 {
-			n = append(n, s.Name)
+			n = append(n, s.id())
 		}
 	}
 	return strings.Join(n, "+")
@@ -324,7 +353,7 @@ type ctxDef struct {
 
 // firstApplied: the chart slot kube.Client.update visits first (Helm's install order: ConfigMap, ClusterRole, Service, unknown kinds).
 func firstApplied(mask int) slot {
-	for _, i := range []int{0, 3, 1, 2} {
+	for _, i := range []int{0, 4, 3, 1, 2} {
 		if mask&(1<<i) != 0 {
 			return slots[i]
 		}
@@ -484,7 +513,7 @@ func placements(kinds int, vary []int) []placement {
 func placementString(p placement) string {
 	var s []string
 	for i, k := range p {
-		s = append(s, slots[i].Name+"="+placeNames[k])
+		s = append(s, slots[i].id()+"="+placeNames[k])
 	}
 	return strings.Join(s, ",")
 }
@@ -605,7 +634,11 @@ func resOfPath(p string) string {
 	if len(segs) < 2 {
 		return p
 	}
-	return segs[len(segs)-2] + "/" + segs[len(segs)-1]
+	r := segs[len(segs)-2] + "/" + segs[len(segs)-1]
+	if i := strings.Index(p, "/namespaces/"); i >= 0 && len(segs) >= 4 && segs[len(segs)-4] == "namespaces" && segs[len(segs)-3] != hx.Namespace {
+		r += "@" + segs[len(segs)-3] // the sim's call labels use the same suffix
+	}
+	return r
 }
 
 func kindOfPath(p string) string {
@@ -864,7 +897,7 @@ func pathStrings(path []opspace.Step) []string {
 			str = "[release " + s.Op.Release + "] " + str
 		}
 		if s.Op.Chart != nil && len(s.Op.Chart.Extra) > 0 {
-			str += fmt.Sprintf(" +documents hard-coding their own ownership metadata: %v", sortedKeys(s.Op.Chart.Extra))
+			str += fmt.Sprintf(" +raw documents (own ownership metadata / explicit namespace): %v", sortedKeys(s.Op.Chart.Extra))
 		}
 		out = append(out, str)
 	}
@@ -970,6 +1003,8 @@ func blocksOf(thorough bool) []block {
 			// charts whose documents hard-code ownership metadata of their own
 			{driver: "memory", ctxs: contextsWith(false, ctxOpt{Own: 1}), masks: []int{15}, kinds: 7, vary: []int{0, 2}},
 			{driver: "memory", ctxs: contextsWith(false, ctxOpt{Own: 2}), masks: []int{15}, kinds: 7, vary: []int{0, 2}},
+			// a document with metadata.namespace: other whose kind+name equal the base resource b0 of the release namespace
+			{driver: "memory", ctxs: contexts(false), masks: []int{16, 17}, kinds: 7, vary: []int{0, 4}},
 		}
 	}
 	// thorough: the memory backend with every chart subset, 9 placement kinds, hook and no-hook charts and the
@@ -988,6 +1023,8 @@ func blocksOf(thorough bool) []block {
 		{driver: "memory", ctxs: contextsWith(true, ctxOpt{Own: 1}), masks: []int{15, 5}, kinds: 7, vary: []int{0, 2}},
 		{driver: "memory", ctxs: contextsWith(true, ctxOpt{Own: 2}), masks: []int{15, 5}, kinds: 7, vary: []int{0, 2}},
 		{driver: "secrets", ctxs: contextsWith(false, ctxOpt{Own: 1}), masks: []int{15}, kinds: 7, vary: []int{0, 2}},
+		{driver: "memory", ctxs: contexts(true), masks: []int{16, 17}, kinds: 9, vary: []int{0, 4}},
+		{driver: "secrets", ctxs: contexts(false), masks: []int{16, 17}, kinds: 7, vary: []int{0, 4}},
 	}
 }
 
@@ -1095,7 +1132,7 @@ func (x *explorer) prefix(drv string, cx ctxDef, mask int) *prefixState {
 
 func run(c *core.Ctx) {
 	blocks := blocksOf(c.Thorough())
-	c.Bound("slots", "ConfigMap a, Service s, Widget w, ClusterRole cr (cluster-scoped)")
+	c.Bound("slots", "ConfigMap a, Service s, Widget w, ClusterRole cr (cluster-scoped), ConfigMap b0 in namespace other (same kind+name as the base resource)")
 	c.Bound("ledger_depth_before_operation", "0..2 revisions")
 	c.Bound("followup_depth", "1 operation after the operation under test")
 	for i, b := range blocks {
@@ -1177,6 +1214,10 @@ func (x *explorer) scenario(drv string, cx ctxDef, mask int, pl placement) {
 		}
 		if cx.SlotsAbsentAfterPrefix {
 			c.Floor("refused:retry-after-failed-upgrade")
+		}
+		if mask&16 != 0 && v.Conflicts == 1 && pl[4] != plAbsent && pl[4] != plOwned && cx.Kind == "upgrade" {
+			// the only conflict is the other-namespace twin of a resource the deployed manifest has in the release namespace
+			c.Floor("refused:upgrade-same-name-other-namespace")
 		}
 		if cx.CreateNS != "" {
 			c.Floor("refused:create-namespace(ns-" + cx.CreateNS + ")")
